@@ -24,7 +24,9 @@ schedules an attempt exactly when operational and armed, pass-through devices fo
 was exhausted schedules an attempt when the budget is raised; (C03.6) every pool mutation is followed by a check of the
 waiting requests scheduled for the current instant; (C03.7) the check visits every waiting request; (C03.8) a new
 downstream connection announces itself; (C03.9) the protocol methods reachable re-entrantly write no slot; (C03.10) a
-resource refusal registers exactly one callback which clears the flag and notifies upstream.
+resource refusal registers exactly one callback which clears the flag and notifies upstream; (C03.11) a restored
+machine re-offers a finished part and announces free space independently of the waiting flag (a notification that
+arrives while the machine is down is ignored by design, so an armed flag proves nothing at restore time).
 NOT decided: termination of a finite-horizon run; quiescence of a whole line at each clock advance; DecisionGate
 predicates that depend on more than the part (documented caveat).
 '''
@@ -363,6 +365,14 @@ def check(ctx):
     obs.append(o)
     if P.has_cls('PartProcessor'):
         resource_wait(ctx, o)
+
+    # ---- C03.11 restore ---------------------------------------------------------------------------------------
+    o = Ob('C03.11', 'K2', 'a restored machine re-offers a finished part and announces free space whatever the waiting flag says '
+                           '(notifications that arrived while it was down were ignored)')
+    obs.append(o)
+    if P.has_cls('PartProcessor'):
+        from .c13 import restore_flow
+        restore_flow(ctx, o)
     return obs
 
 
